@@ -136,8 +136,13 @@ class Machine(object):
         cfg = F.gen_hash_cfg(rng, fam)
         hot = hot_points(fam, cfg)
         total = min(self._total(rng, fam, cfg), 30000)
+        parts = partition(rng, total, 8, hot)
+        if fam == "KangarooTwelve" and rng.random() < 0.35:
+            # tree hashing: a small piece that leaves the chunk half full, then pieces that run across several chunk boundaries
+            head = rng.choice([1, 100, 3000, 5000, 8191, 8193, 9000])
+            parts = [head] + [rng.choice([8192 + 1, 12000, 16384, 16385, 20000, 24577, 30000]) for _ in range(rng.choice([1, 1, 2]))] + [rng.choice([0, 7, 5000])]
         ops = []
-        for n in partition(rng, total, 8, hot):
+        for n in parts:
             ops.append(["upd", [rng.randrange(1 << 30), n]] + self._carrier(rng))
         if F.is_xof(fam):
             rtotal = rng.choice([0, 1, 32, 64, 135, 136, 137, 167, 168, 169, 336, 337, 500, 1000])
